@@ -1012,7 +1012,9 @@ func formatFriendlyError
 
 func fmtErr
   props C19 C01
+  requires pos.col < 1<<40
   ensures result != nil
+  ghost at precall 2 fmt.Sprintf: ghostAssert(pos.col >= 1 ==> len(arg1) == pos.col); ghostAssert(pos.col < 1 ==> len(arg1) == 1)
 
 func getLineAtBytes
   props C19 C01
